@@ -88,7 +88,7 @@ fn seq_answers(kind: StoreKind, clean: bool, order: &[&Rq]) -> Vec<Ans> {
     }
 }
 
-struct Outcome { ok: bool, what: String, order: Vec<(usize, usize)>, answers: Vec<Vec<Option<Ans>>>, cancelled: Vec<Vec<bool>>, steps: usize }
+struct Outcome { ok_without_cancel: Option<bool>, ok: bool, what: String, order: Vec<(usize, usize)>, answers: Vec<Vec<Option<Ans>>>, cancelled: Vec<Vec<bool>>, steps: usize }
 
 /// actions: 0..k-1 poll client i; k poll actor; k+1+i cancel client i's pending request
 fn run_schedule(kind: StoreKind, cap: usize, clean: bool, progs: &[Vec<Rq>], schedule: &[usize]) -> Outcome {
@@ -129,12 +129,12 @@ fn run_schedule(kind: StoreKind, cap: usize, clean: bool, progs: &[Vec<Rq>], sch
     let mut rounds = 0;
     while cl.iter().any(|c| c.next < c.prog.len()) {
         rounds += 1;
-        if rounds > 10_000 { return Outcome { ok: false, what: "deadlock: clients still pending after 10000 fair rounds of polling every client and the actor".into(), order: vec![], answers: cl.iter().map(|c| c.answers.clone()).collect(), cancelled: cl.iter().map(|c| c.cancelled.clone()).collect(), steps: step }; }
+        if rounds > 10_000 { return Outcome { ok_without_cancel: None, ok: false, what: "deadlock: clients still pending after 10000 fair rounds of polling every client and the actor".into(), order: vec![], answers: cl.iter().map(|c| c.answers.clone()).collect(), cancelled: cl.iter().map(|c| c.cancelled.clone()).collect(), steps: step }; }
         for i in 0..k { step += 1; poll_client(&mut cl[i], step, &mut cx, &handle); }
         step += 1;
         if !actor_done { match std::panic::catch_unwind(std::panic::AssertUnwindSafe(|| actor.as_mut().poll(&mut cx))) { Ok(Poll::Ready(())) => actor_done = true, Ok(Poll::Pending) => {}, Err(_) => { actor_done = true; panicked = true; } } }
     }
-    if panicked { return Outcome { ok: false, what: "the actor loop panicked while serving a request (C11: one request must not take the service down)".into(), order: vec![], answers: cl.iter().map(|c| c.answers.clone()).collect(), cancelled: cl.iter().map(|c| c.cancelled.clone()).collect(), steps: step }; }
+    if panicked { return Outcome { ok_without_cancel: None, ok: false, what: "the actor loop panicked while serving a request (C11: one request must not take the service down)".into(), order: vec![], answers: cl.iter().map(|c| c.answers.clone()).collect(), cancelled: cl.iter().map(|c| c.cancelled.clone()).collect(), steps: step }; }
     // linearizability search over interleavings (program order per client; cancelled requests may be in or out)
     let answers: Vec<Vec<Option<Ans>>> = cl.iter().map(|c| c.answers.clone()).collect();
     let cancelled: Vec<Vec<bool>> = cl.iter().map(|c| c.cancelled.clone()).collect();
@@ -175,11 +175,22 @@ fn run_schedule(kind: StoreKind, cap: usize, clean: bool, progs: &[Vec<Rq>], sch
     }
     rec(kind, clean, &cl, &mut pos, &mut order, &mut found);
     // every non-abandoned request has exactly one answer
-    for c in &cl { for j in 0..c.prog.len() { if !c.cancelled[j] && c.answers[j].is_none() { return Outcome { ok: false, what: "a request that was not abandoned has no answer".into(), order: vec![], answers, cancelled, steps: step }; } } }
+    for c in &cl { for j in 0..c.prog.len() { if !c.cancelled[j] && c.answers[j].is_none() { return Outcome { ok_without_cancel: None, ok: false, what: "a request that was not abandoned has no answer".into(), order: vec![], answers, cancelled, steps: step }; } } }
     match found {
-        Some(o) => Outcome { ok: true, what: String::new(), order: o, answers, cancelled, steps: step },
-        None => Outcome { ok: false, what: "not linearizable: no interleaving of the clients' programs (program order, real-time precedence) replayed on one sequential limiter gives the observed answers".into(), order: vec![], answers, cancelled, steps: step },
+        Some(o) => Outcome { ok_without_cancel: None, ok: true, what: String::new(), order: o, answers, cancelled, steps: step },
+        None => Outcome { ok_without_cancel: None, ok: false, what: "not linearizable: no interleaving of the clients' programs (program order, real-time precedence) replayed on one sequential limiter gives the observed answers".into(), order: vec![], answers, cancelled, steps: step },
     }
+}
+
+/// a failing schedule with abandon actions is re-run without them: is the abandonment what breaks it?
+fn run_schedule_x(kind: StoreKind, cap: usize, clean: bool, progs: &[Vec<Rq>], schedule: &[usize]) -> Outcome {
+    let mut o = run_schedule(kind, cap, clean, progs, schedule);
+    let k = progs.len();
+    if !o.ok && schedule.iter().any(|&a| a > k) {
+        let s2: Vec<usize> = schedule.iter().cloned().filter(|&a| a <= k).collect();
+        o.ok_without_cancel = Some(run_schedule(kind, cap, clean, progs, &s2).ok);
+    }
+    o
 }
 
 fn gen_progs(rng: &mut Rng, k: usize, per: usize, hostile: bool) -> Vec<Vec<Rq>> {
@@ -200,8 +211,8 @@ fn emit(kind: StoreKind, cap: usize, clean: bool, progs: &[Vec<Rq>], schedule: &
     let ord: Vec<String> = o.order.iter().map(|(i, j)| format!("[{i},{j}]")).collect();
     let sch: Vec<String> = schedule.iter().map(|x| x.to_string()).collect();
     let canc: Vec<String> = o.cancelled.iter().map(|c| format!("[{}]", c.iter().map(|b| b.to_string()).collect::<Vec<_>>().join(","))).collect();
-    println!("{{\"store\":\"{:?}\",\"cap\":{cap},\"clean\":{clean},\"progs\":[{}],\"schedule\":[{}],\"ok\":{},\"what\":{:?},\"order\":[{}],\"answers\":[{}],\"cancelled\":[{}],\"steps\":{}}}",
-        kind, p.join(","), sch.join(","), o.ok, o.what, ord.join(","), ans.join(","), canc.join(","), o.steps);
+    println!("{{\"store\":\"{:?}\",\"cap\":{cap},\"clean\":{clean},\"progs\":[{}],\"schedule\":[{}],\"ok\":{},\"ok_without_cancel\":{},\"what\":{:?},\"order\":[{}],\"answers\":[{}],\"cancelled\":[{}],\"steps\":{}}}",
+        kind, p.join(","), sch.join(","), o.ok, o.ok_without_cancel.map(|b| b.to_string()).unwrap_or("null".into()), o.what, ord.join(","), ans.join(","), canc.join(","), o.steps);
 }
 
 fn main() {
@@ -227,12 +238,25 @@ fn main() {
                         let mut s = Vec::with_capacity(d);
                         let mut x = code;
                         for _ in 0..d { s.push(x % nact); x /= nact; }
-                        let o = run_schedule(kind, cap, clean, &progs, &s);
+                        let o = run_schedule_x(kind, cap, clean, &progs, &s);
                         total += 1;
                         if !o.ok { bad += 1; if bad <= 5 { emit(kind, cap, clean, &progs, &s, &o); } }
                         else if total % emit_every == 0 { emit(kind, cap, clean, &progs, &s, &o); }
                     }
                 }
+            }
+        }
+        "witness_f10" => {
+            // known finding stamp-disorder, the mechanism on the real actor: two unit requests on a fresh key (max_burst 2,
+            // one token per hour) stamped 1 microsecond apart and queued in the opposite order of their stamps
+            let t0: u64 = 1_700_000_000_000_000_000;
+            for kind in [StoreKind::Per, StoreKind::Ada, StoreKind::Pro] {
+                let progs = vec![vec![Rq { key: 7, b: 2, count: 1, period: 3600, q: 1, now_ns: t0 + 1000 }], vec![Rq { key: 7, b: 2, count: 1, period: 3600, q: 1, now_ns: t0 }]];
+                let s = vec![0usize, 1, 2, 2, 0, 1];
+                let o = run_schedule(kind, 2, false, &progs, &s);
+                total += 1;
+                if !o.ok { bad += 1; }
+                emit(kind, 2, false, &progs, &s, &o);
             }
         }
         _ => {
@@ -253,7 +277,7 @@ fn main() {
                 let nact = if with_cancel { 2 * k + 1 } else { k + 1 };
                 let s: Vec<usize> = (0..len).map(|_| rng.below(nact as u64) as usize).collect();
                 let clean = rng.chance(1, 2);
-                let o = run_schedule(kind, cap, clean, &progs, &s);
+                let o = run_schedule_x(kind, cap, clean, &progs, &s);
                 total += 1;
                 if !o.ok { bad += 1; }
                 emit(kind, cap, clean, &progs, &s, &o);
